@@ -42,11 +42,12 @@ def prop(name, getter, cache=True, invby=()):
     return {"name": name, "getter": getter, "cache": cache, "invby": list(invby)}
 
 
-def cls(attrs, frozen=False, dnc=False, key="", props=(), bases=(), plain=False, bootstrap=False, frozen_arg=None, post_init=(), post_set=None):
+def cls(attrs, frozen=False, dnc=False, key="", props=(), bases=(), plain=False, bootstrap=False, frozen_arg=None, post_init=(), post_set=None, post_keep=None):
     """frozen: what the class is (what the model reads); frozen_arg: what its decorator says (None: the same; False: nothing, i.e. inherited)"""
     return {"attrs": attrs, "frozen": frozen, "dnc": dnc, "key": key, "props": list(props), "bases": list(bases), "plain": plain,
             "bootstrap": bootstrap, "frozen_arg": frozen if frozen_arg is None else frozen_arg,
-            "post_init": list(post_init), "post_set": list(post_set) if post_set else []}       # __post_init__: read these properties, then self.<a> = FN[f](self.<a>)
+            "post_init": list(post_init), "post_set": list(post_set) if post_set else [],
+            "post_keep": list(post_keep) if post_keep else []}       # __post_init__: read these properties, then self.<a> = FN[f](self.<a>)
 
 
 def inherited(attrs):
@@ -56,6 +57,8 @@ def inherited(attrs):
 CHILD = cls([attr("v", TINT, "lit", I(0)), attr("ws", TL(TINT), "lit", L(), item="w")])
 KCHILD = cls([attr("k", TSTR), attr("v", TINT, "lit", I(0))], key="k")
 
+CH0_ = {"t": "obj", "c": "Child", "a": {"v": I(0), "ws": L()}, "x": {"_": MISSING}}
+INH_BASE = [attr("n", TINT, "lit", I(0)), attr("nums", TL(TINT), "factory", L(), item="num")]
 FROZEN_BASE = [attr("nums", TL(TINT), "lit", L(), item="num"), attr("n", TINT, "lit", I(0))]
 
 SCENARIOS = {
@@ -87,6 +90,10 @@ SCENARIOS = {
     ])}},
     "nested_prep": {"root": "P", "classes": {"Child": CHILD, "P": cls([
         attr("child", TU("Child"), prep="plookup"),
+    ])}},
+    # the attribute preparer rejects some nested values: it runs after the nested value has been updated / transformed
+    "nested_prep_boom": {"root": "P", "classes": {"Child": CHILD, "P": cls([
+        attr("child", TU("Child"), prep="boomv1"),
     ])}},
     "list_spec": {"root": "P", "classes": {"Child": CHILD, "P": cls([
         attr("kids", TL(TU("Child")), "factory", L(), item="kid"),
@@ -143,6 +150,64 @@ SCENARIOS = {
         attr("a", TINT, "lit", I(0)),
         attr("b", TINT, "lit", I(0)),
     ], props=[prop("p", "a_plus_10", True, ["a"]), prop("q", "p_times_2", True, ["p"])], post_init=["p", "q"], post_set=("a", "inc"))}},
+    # do_not_copy: one attribute carried into copies by identity; a whole class whose helpers work in place by documented design
+    "dnc_attr": {"root": "P", "classes": {"Child": CHILD, "P": cls([
+        attr("bigs", TL(TINT), "factory", L(), dnc=True, item="big"),
+        attr("child", TU("Child"), dnc=True),
+    ])}},
+    "dnc_attr_decl": {"root": "P", "classes": {"P": cls([
+        dict(attr("bigs", TL(TINT), "factory", L(), dnc=True, item="big"), dnc_decl="attr"),
+        attr("n", TINT, "lit", I(0)),
+    ])}},
+    "dnc_class": {"root": "P", "classes": {"P": cls([
+        attr("n", TINT, "lit", I(0)),
+        attr("nums", TL(TINT), "factory", L(), item="num"),
+    ], dnc=True)}},
+    # every way of declaring a default
+    "dflt_kinds": {"root": "P", "classes": {"P": cls([
+        attr("lits", TL(TINT), "lit", L(), item="lit"),
+        attr("facs", TL(TINT), "fieldfactory", L(), item="fac"),
+    ])}},
+    "dflt_kinds2": {"root": "P", "classes": {"P": cls([
+        attr("maps", TD(TSTR, TINT), "attr", D(), item="map"),
+        attr("flags", TS(TINT), "lit", SET(), item="flag"),
+    ])}},
+    # one level of spec / plain subclassing with a re-defaulted inherited attribute; eager bootstrap
+    "inherit_spec": {"root": "Sub", "classes": {
+        "Base": cls(INH_BASE),
+        "Sub": cls([dict(INH_BASE[0], inherited=True, redefault=I(2)), dict(INH_BASE[1], inherited=True)] + [attr("m", TINT, "lit", I(1))], bases=["Base"])}},
+    "inherit_plain": {"root": "Sub", "classes": {
+        "Base": cls(INH_BASE),
+        "Sub": cls([dict(INH_BASE[0], inherited=True, redefault=I(2)), dict(INH_BASE[1], inherited=True)], bases=["Base"], plain=True)}},
+    # a plain subclass giving a MUTABLE default to attributes the spec class declares without one / with an immutable one
+    "inherit_plain_mut": {"root": "Sub", "classes": {"Child": CHILD,
+        "Base": cls([attr("nums", TL(TINT), item="num"), attr("child", TOPT(TU("Child")), "lit", NONE)]),
+        "Sub": cls([dict(attr("nums", TL(TINT), item="num"), inherited=True, redefault=L()),
+                    dict(attr("child", TOPT(TU("Child")), "lit", NONE), inherited=True, redefault=CH0_)], bases=["Base"], plain=True)}},
+    # a spec subclass that asks for do_not_copy on an inherited default_factory attribute, and re-defaults an invalidated_by attribute
+    "inherit_dnc": {"root": "Sub", "classes": {
+        "Base": cls(INH_BASE + [attr("d", TINT, "attr", I(0), invby=["n"])]),
+        "Sub": cls([dict(INH_BASE[0], inherited=True), dict(INH_BASE[1], inherited=True, dnc=True),
+                    dict(attr("d", TINT, "attr", I(0), invby=["n"]), inherited=True, redefault=I(2))], bases=["Base"])}},
+    # defaults that do not conform to the attribute's type: a plain subclass re-defaulting with another type, a collection defaulting to None
+    "bad_default": {"root": "Sub", "classes": {
+        "Base": cls([attr("y", TINT, "lit", I(0)), attr("nums", TL(TINT), "lit", NONE, item="num")]),
+        "Sub": cls([dict(attr("y", TINT, "lit", I(0)), inherited=True, redefault=S("zero")),
+                    dict(attr("nums", TL(TINT), "lit", NONE, item="num"), inherited=True)], bases=["Base"], plain=True)}},
+    "eager": {"root": "P", "classes": {"P": cls([
+        attr("c", TINT, "field", I(2)),
+        attr("nums", TL(TINT), "factory", L(), item="num"),
+    ], bootstrap=True)}},
+    # a frozen class whose __post_init__ derives a copy (made while the constructor's initialisation window is open) that is used afterwards
+    "frozen_post_copy": {"root": "P", "classes": {"P": cls([
+        attr("n", TINT, "lit", I(0)),
+        attr("nums", TL(TINT), "factory", L(), item="num"),
+    ], frozen=True, post_keep=("n", "inc"))}},
+    # frozen AND do_not_copy=True: helpers would work in place, which a frozen class forbids
+    "frozen_dnc": {"root": "P", "classes": {"P": cls([
+        attr("n", TINT, "lit", I(0)),
+        attr("nums", TL(TINT), "factory", L(), item="num"),
+    ], frozen=True, dnc=True)}},
     # frozen by inheritance: an undecorated subclass, and a decorated subclass that does not repeat frozen=True
     "frozen_plain_sub": {"root": "PS", "classes": {"P": cls(FROZEN_BASE, frozen=True),
                                                    "PS": cls(inherited(FROZEN_BASE), frozen=True, bases=["P"], plain=True)}},
@@ -161,6 +226,18 @@ SCENARIOS = {
 }
 
 
+# the fixed generated corpus (tools/gen_scenarios.py; committed JSON, independent of VERIF_SEED)
+import json as _json
+import os as _os
+_GEN = _os.path.join(_os.path.dirname(_os.path.abspath(__file__)), "gen_scenarios.json")
+GENERATED = []
+if _os.path.exists(_GEN):
+    with open(_GEN) as _f:
+        _g = _json.load(_f)
+    SCENARIOS.update(_g)
+    GENERATED = sorted(_g)
+
+
 # ----------------------------------------------------------------------------- rendering to TLA+
 
 def tla_scenario(scn):
@@ -168,7 +245,8 @@ def tla_scenario(scn):
     ct = {}
     for cname, c in scn["classes"].items():
         ct[cname] = {"attrs": [a["name"] for a in c["attrs"]],
-                     "spec": {a["name"]: {k: a[k] for k in ("ty", "dk", "dv", "dnc", "invby", "prep", "iprep", "item")} for a in c["attrs"]},
+                     "spec": {a["name"]: {k: (a["redefault"] if k == "dv" and a.get("redefault") is not None else a[k])
+                                          for k in ("ty", "dk", "dv", "dnc", "invby", "prep", "iprep", "item")} for a in c["attrs"]},
                      "frozen": c["frozen"], "dnc": c["dnc"], "key": c["key"],
                      "props": [{k: p[k] for k in ("name", "getter", "cache", "invby")} for p in c["props"]]}
     return ct
@@ -252,7 +330,7 @@ def class_src(cname, c, eager_all=False):
             args.append("frozen=True")
         if c["dnc"]:
             args.append("do_not_copy=True")
-        dnc_attrs = [a["name"] for a in c["attrs"] if a["dnc"]]
+        dnc_attrs = [a["name"] for a in c["attrs"] if a["dnc"] and a.get("dnc_decl") != "attr"]
         if dnc_attrs and not c["dnc"]:
             args.append(f"do_not_copy={dnc_attrs!r}")
         if c.get("bootstrap") or eager_all:
@@ -270,6 +348,8 @@ def class_src(cname, c, eager_all=False):
         extra = []
         if a["invby"]:
             extra.append(f"invalidated_by={a['invby']!r}")
+        if a["dnc"] and a.get("dnc_decl") == "attr":          # declared on the attribute itself rather than in the decorator's list
+            extra.append("do_not_copy=True")
         if a["dk"] == "none":
             body.append(ann + (f" = Attr({', '.join(extra)})" if extra else ""))
         elif a["dk"] == "lit":
@@ -291,6 +371,8 @@ def class_src(cname, c, eager_all=False):
             continue
         body.append(f"@spec_property(cache={p['cache']!r}, invalidated_by={p['invby']!r})\ndef {p['name']}(self):\n"
                     f"    COUNTS[{p['name']!r}] = COUNTS.get({p['name']!r}, 0) + 1\n    return GETTERS[{p['getter']!r}](self)")
+    if c.get("post_keep"):          # __post_init__ derives a copy of the half-constructed instance and keeps it: the receiver the harness then works on
+        body.append(f"def __post_init__(self):\n    KEPT.append(self.with_{c['post_keep'][0]}(FN[{c['post_keep'][1]!r}](self.{c['post_keep'][0]})))")
     if c.get("post_init") or c.get("post_set"):
         lines_ = ["def __post_init__(self):"] + [f"    self.{p}" for p in c.get("post_init", [])]
         if c.get("post_set"):
@@ -431,6 +513,8 @@ def top_pools(scn, root, pools):
         kw.append(kws((n1, pools[n1]["vp"][1] if len(pools[n1]["vp"]) > 1 else g1), (n2, b2)))
         if f1 and f2:
             kwf.append(kws((n1, f1[0]), (n2, [f for f in f2 if f != "none"][-1])))
+            kwf.append(kws((n1, f1[0]), (n2, f2[0])))          # both results depend on their input: shows whether the second transform sees the effect of the first
+            kwf.append(kws((n2, f2[0]), (n1, f1[0])))
     kw.append(kws(("nosuchattr", I(1))))
     init = [[]]
     for n, good, bad, fns in firsts:
